@@ -412,6 +412,21 @@ func ruleMemento(c *core.Ctx) {
 		return ok
 	}
 	c.Check(usesMemento(d), "HASH/memento", "go:ComputeHash-hashes-memento", pos(c, d.Decl), "payload = GetMemento() when available", "Log.ComputeHash hashes the full payload instead of its memento")
+	// both sides must produce the same bytes for the memento: the stored column is written by
+	// json.Marshal (default escaping), so the hashing encoder must keep the defaults too
+	{
+		di := d.Pkg.TypesInfo
+		var opts []string
+		ast.Inspect(d.Decl.Body, func(n ast.Node) bool {
+			if call, ok := n.(*ast.CallExpr); ok {
+				if f := astx.Callee(di, call); f != nil && f.Pkg() != nil && f.Pkg().Path() == "encoding/json" && (f.Name() == "SetEscapeHTML" || f.Name() == "SetIndent") {
+					opts = append(opts, f.Name())
+				}
+			}
+			return true
+		})
+		c.Check(len(opts) == 0, "HASH/memento", "go:ComputeHash-encoder-defaults", pos(c, d.Decl), "json.Encoder with default escaping and no indentation", "Log.ComputeHash changes the encoder's defaults ("+strings.Join(opts, ", ")+") while the memento column Postgres hashes is written by json.Marshal with the defaults: the two sides hash different bytes for any text containing <, > or &")
+	}
 	stored := false
 	info := s.Pkg.TypesInfo
 	var memVar types.Object
@@ -549,6 +564,7 @@ func checkC09(c *core.Ctx) {
 	rulePredecessor(c)
 	ruleHashAgreement(c)
 	ruleMemento(c)
+	ruleReadCommitted(c)
 }
 
 // ================= C10 =================
